@@ -1,5 +1,7 @@
 import ZenonVerif.Model.Num
 import ZenonVerif.Model.Pow
 import ZenonVerif.Model.Rpc
+import ZenonVerif.Model.Codec
 import ZenonVerif.Props.C12
 import ZenonVerif.Props.C18
+import ZenonVerif.Props.C13
